@@ -12,11 +12,11 @@ CLAIMED = {
          "Urn model of rng.shuffle on sentinels is a modelling step (validated exhaustively on the enumerated trees); numpy semantics trusted.",
          "DESIGN.md section 6 C09"),
  "C01": ("Coq proof (conditional SMC with adaptive multinomial resampling leaves the path target invariant, for every proposal, particle count, schedule and symmetric resampling criterion; auxiliary-variable lemma for the data order; i-SIR) + exact transition matrices of the real particle-Gibbs update (every random outcome enumerated) checked for pi P = pi + vm_compute correspondence of the Coq sampler model with the real ConditionalSMCSampler",
-         "Theorem C01_csmc_invariant (induction over the schedule via exchangeability of the unconditional sampler, a change of measure and slot averaging; closed under the global context) plus C01_aux_variable_invariant for the random data order. The implementation is decided by computing, for every start tree over 1-2 (thorough: 3) data points, the EXACT outcome distribution of ParticleGibbsTreeSampler.sample_tree under both wirings (run.py and library), all three proposals, outliers on/off, alpha/particles/threshold grids, and testing max|pi P - pi| <= 1e-9 against exp(log_p_one); the Coq model of the sampler, fed with proposal/weight tables read off the real kernel, reproduces the real sampler's outcome distribution row by row for fixed data orders.",
+         "Theorems C01_csmc_invariant (induction over the schedule via exchangeability of the unconditional sampler, a change of measure and slot averaging; closed under the global context) and C01_pg_update_invariant (the assembled update: random data order + conditional SMC + target identification). The implementation is decided by computing, for every start tree over 1-3 (thorough: 4) data points, the EXACT outcome distribution of ParticleGibbsTreeSampler.sample_tree under both wirings (run.py and library), all three proposals, outliers on/off, alpha/particles/threshold grids, and testing max|pi P - pi| <= 1e-9 against exp(log_p_one); the Coq model of the sampler, fed with proposal/weight tables read off the real kernel, reproduces the real sampler's outcome distribution row by row for fixed data orders.",
          "The theorem's premises for PhyClone (positive weights, proposal mass one, weights telescoping to gamma_one*pdf) are C08/C09 theorems plus validation; multinomial layout modelled as iid categorical draws (validated by the correspondence); enumerating RNG assumes numpy's laws.",
          "DESIGN.md section 6 C01"),
  "C04": ("Coq proof (Gibbs-on-fibers invariance, auxiliary-mixture and composition lemmas, closed candidate set of the data-point move, refutation witnesses) + exact transition matrices of the three real moves checked for pi P = pi",
-         "Theorems for every finite state space: a Gibbs redraw on a partition into fibers with state-independent candidate lists leaves the target invariant; mixtures over an independent auxiliary choice and compositions of invariant kernels are invariant; the data-point move's candidate list is closed. The real DataPointSampler / PruneRegraphSampler / ParticleGibbsSubtreeSampler are decided by exact transition matrices from every start tree over 2-3 (thorough: 4) data points.",
+         "Theorems for every finite state space: a Gibbs redraw on a partition into fibers with state-independent candidate lists leaves the target invariant; mixtures over an independent auxiliary choice and compositions of invariant kernels are invariant; the data-point move (repaired guard) leaves the target invariant on every union of fibers (C04_dp_move_invariant). The real DataPointSampler / PruneRegraphSampler / ParticleGibbsSubtreeSampler are decided by exact transition matrices from every start tree over 2-4 (thorough: 5) data points; the Coq model of the data-point sweep reproduces the real sampler's outcome distribution; the sweep in run.py is checked to be a fixed composition.",
          "Subtree move: no theorem beyond the whole-tree case (C01); its state-dependent subtree choice is a recorded known finding (3+ data points). Tree-level candidate enumeration of prune-regraft is validated, not proved.",
          "DESIGN.md section 6 C04"),
  "C08": ("Coq proof (each proposal's sampler equals its density-weighted sum over ALL placements, mass one, subset counting, weight telescoping) + exact enumeration of every proposal draw against an independent placement oracle and against the Coq model",
